@@ -345,6 +345,9 @@ DJV_CMD(lib1_plantrefs, "lib1.plantrefs")
     auto& t = TR(a.at(1));
     if (!t.is_valid()) return "skipped";
     const std::string id = std::to_string((long long)t.id());
+    // `lib1.plantrefs <t> nulls`: the same rows with NULL in the nullable columns trackIdInOriginDatabase / databaseUuid
+    // (candidate defect parked behind _lib1.PLANT_NULL_COLUMNS, see design/Lib1.md)
+    const bool nulls = a.size() > 2 && a.at(2) == "nulls";
     auto* h = main_handle();
     auto us = text_col(h, "SELECT uuid FROM music.Information");
     const std::string uuid = "'" + (us.empty() ? std::string("u") : us[0]) + "'";
@@ -360,6 +363,7 @@ DJV_CMD(lib1_plantrefs, "lib1.plantrefs")
             });
         if (count_raw(h, "SELECT COUNT(*) FROM music." + list + " WHERE trackId = " + id) == 0)
             insert_row(h, list, [&](const std::string& c) {
+                if (nulls && (c == "trackIdInOriginDatabase" || c == "databaseUuid")) return std::string("NULL");
                 if (c == "trackId" || c == "trackIdInOriginDatabase") return id;
                 if (c == "databaseUuid") return uuid;
                 return std::string("1");        // playlistId / historylistId (the parent planted above), trackNumber, date
